@@ -225,21 +225,3 @@ c01_gs1_instance!(c01_gs1_instance_nul_first, &[0x00, 0x5c, 0x61]);
 c01_gs1_instance!(c01_gs1_instance_nul_only, &[0x00]);
 c01_gs1_instance!(c01_gs1_instance_lone_backslash, &[0x5c]);
 c01_gs1_instance!(c01_gs1_instance_key_without_value, &[0x5c, 0x61]);
-
-/// GameSpy 3 player / team field section with the first-index byte symbolic
-/// (every value, 255 included) and one entry: no panic, no overflow; the result
-/// is a value either way.
-#[cfg(kani)]
-#[kani::proof]
-#[kani::unwind(260)]
-#[kani::stub(alloc::fmt::format, stub_format)]
-#[kani::stub(core::str::from_utf8, stub_from_utf8)]
-#[kani::stub(core::slice::memchr::memchr, stub_memchr)]
-fn c01_t_gs3_field_first_index_any() {
-    let idx: u8 = kani::any();
-    // "ping_" NUL, index, one entry "5" NUL, end of field NUL
-    let packet = vec![b'p', b'i', b'n', b'g', b'_', 0, idx, b'5', 0, 0];
-    let r = gamedig::protocols::gamespy::three::verif_unit::parse_players_and_teams(vec![packet]);
-    kani::cover!(idx == 255, "last index");
-    core::mem::forget(r);
-}
